@@ -21,7 +21,8 @@ ASSUMPTIONS = [
     'a bracket group after a brace group is outside the stated run shape and is not generated adjacent to the run',
 ]
 
-NAMES = ['tgt', 'tgt*', 'foo', 'section*', 'textbf*', 'cup*', 'labelx', 'Section', 'defs', 'inn', 'noindent*', 'leftx']
+NAMES = ['tgt', 'tgt*', 'foo', 'section*', 'textbf*', 'cup*', 'labelx', 'Section', 'defs', 'inn', 'noindent*', 'leftx',
+         'xverylongcommandnameverylongcommandname', 'DeclareFancyChapterHeadingStyleForAppendicesAndOtherBackMatterSectionsX*']
 ATTACH = ['', ' ', '  ', '\t', '\n', ' \n', '\n ', ' \t\n\t ', ' ' * 33, '\n' + ' ' * 40, '\t' * 35 + '\n']
 DETACH = ['\n\n', ' \n\n', '\n \n', '\n\n ', ' \n\t\n ', '.', ';', '%c\n', '\\\\', '\\%', '~', '\n\n\n',
           '@', '!', ':', ',', '+', '-', '=', '/', '|', '<', '>', '(', ')', '&', '#', '^', '_', '"', "'", '?', '1']
@@ -157,6 +158,23 @@ def shard_exhaustive(ctx, shard):
                                     res.violations.append(v.record())
                                 continue
                             res.case(case['src'], True, sample=case['src'], classes=['ex:' + cx[0]] + nontrivial(groups, seps))
+    # long bodies: several hundred tokens inside one bracket / brace group
+    for cx in CONTEXTS:
+        count += 1
+        if count % nshard == idx:
+            long_b = ''.join('{w%d}' % k for k in range(130))       # ~400 tokens, no bracket inside
+            long_B = ' '.join('\\y{%d}' % k for k in range(150))
+            for groups in ([('[', long_b), ('{', 'b'), ('{', 'c')], [('[', 'a'), ('[', long_b), ('{', long_B)], [('{', long_B), ('{', 'z')]):
+                for sep in ('', ' '):
+                    total += 1
+                    try:
+                        case = check_case('tgt', groups, [sep] * len(groups), ' t', cx, 'long-body')
+                    except H.Violation as v:
+                        if v.kind not in seen:
+                            seen.add(v.kind)
+                            res.violations.append(v.record())
+                        continue
+                    res.case(case['src'], True, sample=case['src'][:120] + '...', classes=['long-body:%s' % cx[0]])
     # long runs: every count of bracket / brace groups up to 12 (no arity folklore in the parser)
     for cx in CONTEXTS:
         for nb in range(0, 13):
